@@ -133,7 +133,10 @@ func (m *Monitor) Build(op Op) wamp.Message {
 	if op.Args == nil {
 		args = nil
 	}
-	kw := toKw(op.Kw)
+	var kw wamp.Dict
+	if op.Kw != nil {
+		kw = toKw(m.resolveVal(op.P, op.Kw).(map[string]any))
+	}
 	switch op.Kind {
 	case OpSubscribe:
 		return &wamp.Subscribe{Request: wamp.ID(op.Req), Options: toDict(b.opts), Topic: wamp.URI(op.URI)}
